@@ -12,6 +12,13 @@ SPEC = os.path.join(VERIF, "spec")
 HARNESS = os.path.join(VERIF, "harness")
 OUT = os.path.join(VERIF, "out")
 EVIDENCE = os.path.join(VERIF, "evidence")
+if os.path.realpath(REPO) != "/repo":
+    # development aid: run the checks against another checkout (e.g. a scratch worktree with a seeded change) without
+    # touching /repo, /verif/evidence or the main build caches.  Registered checks always run against /repo.
+    _tag = hashlib.sha1(os.path.realpath(REPO).encode()).hexdigest()[:10]
+    OUT = os.path.join(VERIF, "out", "alt-" + _tag)
+    EVIDENCE = os.path.join(OUT, "evidence")
+    _ALT_HARNESS = os.path.join(OUT, "harness")
 TLA_JAR = "/opt/veriftools/tla/tla2tools.jar"
 CM_JAR = "/opt/veriftools/tla/CommunityModules-deps.jar"
 NCPU = os.cpu_count() or 4
@@ -23,6 +30,29 @@ class ToolError(Exception):
 
 def log(*a):
     print(*a, file=sys.stderr, flush=True)
+
+
+def alt_harness():
+    """A copy of the harness workspace whose path dependencies point at REPO (only when REPO is not /repo)."""
+    if os.path.realpath(REPO) == "/repo":
+        return HARNESS
+    import re as _re
+    dst = _ALT_HARNESS
+    os.makedirs(dst, exist_ok=True)
+    tmp = dst + ".new"
+    shutil.rmtree(tmp, ignore_errors=True)
+    os.makedirs(tmp)
+    for name in ("drv", "tfz", ".cargo"):
+        shutil.copytree(os.path.join(HARNESS, name), os.path.join(tmp, name))
+    for name in ("Cargo.toml", "Cargo.lock"):
+        shutil.copy(os.path.join(HARNESS, name), os.path.join(tmp, name))
+    for m in ("drv", "tfz"):
+        f = os.path.join(tmp, m, "Cargo.toml")
+        t = open(f).read().replace('path = "/repo/', 'path = "%s/' % os.path.realpath(REPO))
+        open(f, "w").write(t)
+    subprocess.run(["rsync", "-rc", "--delete", "--exclude", "target", tmp + "/", dst + "/"], check=True)
+    shutil.rmtree(tmp, ignore_errors=True)
+    return dst
 
 
 def ensure_dir(p):
